@@ -79,7 +79,7 @@ def _tree_hash(variant):
     return h.hexdigest()[:20]
 
 
-def _prune(keep=8):
+def _prune(keep=40):
     try:
         ents = [os.path.join(CACHE, d) for d in os.listdir(CACHE) if not d.startswith("tmp") and d != "native"]
     except OSError:
